@@ -27,9 +27,9 @@ K_INERTIA = 1e-5     # the compiler's Jacobi eigen-solver stops when a rotation 
                      # principal axes reproduce the tensor to ~1e-6 relative (worst observed 1.5e-7)
 # ellipsoid shell: the compiler uses Thomsen's area approximation (|error| <= 1.061 %) and a thin layer between the
 # ellipsoid and the ellipsoid with semi-axes + 1e-6 (not a uniform-thickness layer): documented in the source only.
-# Measured against exact surface quadrature for aspect ratios <= 4: mass error <= 1.1 %, inertia error <= 12 %.
+# Measured against exact surface quadrature for aspect ratios <= 4: worst observed mass error 0.08 %, inertia error 0.5 %.
 K_ELL_SHELL_MASS = 0.012
-K_ELL_SHELL_INERTIA = 0.15
+K_ELL_SHELL_INERTIA = 0.05
 
 K_MESH = 3e-6        # float32 vertex pipeline (eps 6e-8); worst observed 1.7e-8
 
@@ -85,7 +85,7 @@ def main(ck):
   ck.assumptions = ['compiler flags boundmass/boundinertia/balanceinertia/settotalmass off (defaults)',
                     'mesh vertices are float32 in the spec: the oracle uses the float32-rounded coordinates',
                     'ellipsoid shell: compiler approximations (Thomsen area, non-uniform thin layer) accepted within '
-                    '1.2 % (mass) / 15 % (inertia) of the exact uniform shell, see K_ELL_SHELL_*']
+                    '1.2 % (mass) / 5 % (inertia) of the exact uniform shell, see K_ELL_SHELL_*']
   worst = dict(mass=0.0, com=0.0, inertia=0.0, ell_shell_mass=0.0, ell_shell_inertia=0.0, mesh_mass=0.0, mesh_inertia=0.0)
 
   def finding(fp, msg, info):
@@ -315,6 +315,6 @@ positive and satisfy the triangle inequality. Tessellated spheres/ellipsoids/cyl
 the primitive's mass and inertia monotonically from below within the inscribed-polyhedron bound, the box mesh exactly.
 Sampled, not exhaustive.'''
 LEVEL_NOTE = '''Ellipsoid shells are only checked within the accuracy of the compiler's own approximations (Thomsen area formula, thin layer
-of non-uniform thickness): 1.2 % mass / 15 % inertia. Non-convex meshes are not generated (only "exact" promises them, and the
+of non-uniform thickness): 1.2 % mass / 5 % inertia. Non-convex meshes are not generated (only "exact" promises them, and the
 convex hull shim is a stand-in for qhull); hfield geoms are skipped; explicit <inertial>, boundmass/boundinertia/balanceinertia/
 settotalmass are left to C36.'''
